@@ -525,7 +525,9 @@ func (c *ConditionCalledByContract) Type() WitnessConditionType {
 // Match implements the WitnessCondition interface checking whether this condition
 // matches given context.
 func (c *ConditionCalledByContract) Match(ctx MatchContext) (bool, error) {
-	return util.Uint160(*c).Equals(ctx.GetCallingScriptHash()), nil
+	h := ctx.GetCallingScriptHash()
+	// Entry script has no calling contract (zero hash), nothing can match that.
+	return !h.Equals(util.Uint160{}) && util.Uint160(*c).Equals(h), nil
 }
 
 // EncodeBinary implements the WitnessCondition interface allowing to serialize condition.
